@@ -24,6 +24,8 @@ pub(crate) mod h_tlfu;
 pub(crate) mod h_sampled;
 #[cfg(kani)]
 pub(crate) mod h_wtlfu;
+#[cfg(kani)]
+pub(crate) mod h_ctor;
 
 /// Concrete-playback tests written by the driver when it replays a solver counterexample.
 #[cfg(all(kani, test))]
